@@ -872,17 +872,23 @@ impl Storage {
                 start_key.extend_from_slice(BlockNumber::MAX.to_be_bytes().as_ref());
                 let mode = IteratorMode::From(start_key.as_ref(), Direction::Reverse);
                 let key_prefix_len = key_prefix.len();
+                // the script's raw data is not length-prefixed, so the prefix also matches the keys of any other
+                // script whose raw data extends (or, through leading zero bytes of the block number, is extended
+                // by) this one: only keys of exactly this script's key length belong to it
+                let key_len = key_prefix_len + 17;
 
                 self.db
                     .iterator(mode)
                     .take_while(|(key, _value)| {
                         key.starts_with(&key_prefix)
-                            && BlockNumber::from_be_bytes(
-                                key[key_prefix_len..key_prefix_len + 8]
-                                    .try_into()
-                                    .expect("stored BlockNumber"),
-                            ) >= to_number
+                            && (key.len() != key_len
+                                || BlockNumber::from_be_bytes(
+                                    key[key_prefix_len..key_prefix_len + 8]
+                                        .try_into()
+                                        .expect("stored BlockNumber"),
+                                ) >= to_number)
                     })
+                    .filter(|(key, _value)| key.len() == key_len)
                     .for_each(|(key, value)| {
                         let block_number = BlockNumber::from_be_bytes(
                             key[key_prefix_len..key_prefix_len + 8]
